@@ -46,6 +46,9 @@ def run(ctx):
     for version in ('3.0', '2.0'):
         for kind in _zinc.kinds_for(version):
             _kind(ctx, kind, version)
+    # date-time payloads: the zone name written is one whose offset at that instant is the value's (shared with C17)
+    from . import c17
+    c17._timezone_name(ctx, ctx.model, rule='C06.D4')
 
 
 def _kind(ctx, kind, version):
@@ -102,14 +105,7 @@ def _shape(ctx):
     m = ctx.model
     rule = 'C06.D1'
     try:
-        dg = m.func('jsondumper', 'dump_grid')
-        body = [norm(x) for x in body_wo_doc(dg)]
-        g = dg.args.args[0].arg
-        if body == ['return json.dumps(_dump_grid_to_json(%s))' % g]:
-            ctx.ob(rule, 'the document text is json.dumps of the grid object', True, '%s:%d' % (FD, dg.lineno))
-        else:
-            ctx.violation(rule, '%s::dump_grid' % FD, '; '.join(body), 'the dumped text is not JSON produced by json.dumps',
-                          'dump_grid is %s' % body, file=FD, line=dg.lineno, engine='E9')
+        J.dumps_call(ctx, rule)
         to = m.func('jsondumper', '_dump_grid_to_json')
         ret = [n for n in walk_no_nested(to) if isinstance(n, ast.Return)]
         d = ret[0].value if ret else None
